@@ -90,6 +90,9 @@ class Interp:
                     v = fl[e["f"]] if e["f"] < len(fl) else UNKNOWN
                 elif isinstance(v, tuple) and v[0] == "tuple":
                     v = v[1][e["f"]] if e["f"] < len(v[1]) else UNKNOWN
+                elif isinstance(v, tuple) and v[0] == "array" and len(v) > 2 and v[2] == "json":
+                    # a tuple inside a constant table: the fact dump serialises tuples and arrays alike as lists
+                    v = v[1][e["f"]] if e["f"] < len(v[1]) else UNKNOWN
                 else:
                     return UNKNOWN
             elif isinstance(e, dict) and "i" in e:
@@ -199,7 +202,7 @@ class Interp:
         if isinstance(j, float):
             return ("f", j)
         if isinstance(j, list):
-            return ("array", [self.from_json(x) for x in j])
+            return ("array", [self.from_json(x) for x in j], "json")
         if isinstance(j, dict):
             if "ref" in j:
                 fr = Frame(None)
